@@ -19,27 +19,44 @@ def digits1 (s : List Char) : Option (List Char) :=
   | c :: cs => if isDig c then some (cs.dropWhile isDig) else none
   | [] => none
 
+/-- optional leading minus sign -/
+def stripMinus (s : List Char) : List Char :=
+  match s with
+  | '-' :: r => r
+  | _ => s
+
+/-- optional fraction: a dot must be followed by digits -/
+def fracStep (s : List Char) : Option (List Char) :=
+  match s with
+  | '.' :: r => digits1 r
+  | _ => some s
+
+/-- optional sign of the exponent -/
+def stripSign (s : List Char) : List Char :=
+  match s with
+  | '+' :: t => t
+  | '-' :: t => t
+  | _ => s
+
+/-- optional exponent up to the end of the text -/
+def expOk (s : List Char) : Bool :=
+  match s with
+  | [] => true
+  | c :: r =>
+    if c == 'e' || c == 'E' then
+      match digits1 (stripSign r) with
+      | some [] => true
+      | _ => false
+    else false
+
 /-- `^-?[0-9]+(\.[0-9]+)?([Ee][-+]?[0-9]+)?$` -/
 def reNumber (s : List Char) : Bool :=
-  let s1 := match s with | '-' :: r => r | _ => s
-  match digits1 s1 with
+  match digits1 (stripMinus s) with
   | none => false
   | some s2 =>
-    let s3? : Option (List Char) := match s2 with
-      | '.' :: r => digits1 r
-      | _ => some s2
-    match s3? with
+    match fracStep s2 with
     | none => false
-    | some s3 =>
-      match s3 with
-      | [] => true
-      | c :: r =>
-        if c == 'e' || c == 'E' then
-          let r1 := match r with | '+' :: t => t | '-' :: t => t | _ => r
-          match digits1 r1 with
-          | some [] => true
-          | _ => false
-        else false
+    | some s3 => expOk s3
 
 /-- value of a digit run -/
 def natOfDigits (ds : List Char) : Nat := ds.foldl (fun n c => n * 10 + (c.toNat - 48)) 0
